@@ -40,7 +40,7 @@ type Case struct {
 	Spec      string `json:"v1_field_kind"` // "" = no field under test
 	Extra     string `json:"v1_field_tags"`
 	MarkerTag string `json:"v1_marker_tags"`
-	Change    string `json:"change"` // addfield | tagfield | tagmarker
+	Change    string `json:"change"` // addfield | tagfield | tagmarker | alterfield (NewSpec = a v2 variant of the v1 field that alters an existing column)
 	NewSpec   string `json:"added_field_kind,omitempty"`
 	NewTag    string `json:"added_tags"`
 	Readable  string `json:"readable,omitempty"`
@@ -59,6 +59,8 @@ func (c Case) String() string {
 		ch = "add tag [" + c.NewTag + "] to the field"
 	case "tagmarker":
 		ch = "add tag [" + c.NewTag + "] to Marker"
+	case "alterfield":
+		ch = "the field becomes " + c.NewSpec
 	}
 	return fmt.Sprintf("v1=%s(marker[%s], %s) v2=v1 + %s", c.Key, c.MarkerTag, f, ch)
 }
@@ -118,6 +120,12 @@ func (c Case) models() (v1, v2 *tg.Model, err error) {
 		v2 = tg.Build(key, specs, []string{joinTags(c.Extra, c.NewTag)}, c.MarkerTag)
 	case "tagmarker":
 		v2 = tg.Build(key, specs, extra, joinTags(c.MarkerTag, c.NewTag))
+	case "alterfield":
+		ns := tg.SpecByName(c.NewSpec)
+		if ns == nil || c.Spec == "" {
+			return nil, nil, fmt.Errorf("unknown variant %q", c.NewSpec)
+		}
+		v2 = tg.Build(key, []*tg.Spec{ns}, extra, c.MarkerTag)
 	default:
 		return nil, nil, fmt.Errorf("unknown change %q", c.Change)
 	}
@@ -291,6 +299,42 @@ func tableColumns(e *h.Env) []string {
 	return out
 }
 
+// columnDefaults: column -> has a DEFAULT in the table definition.
+func columnDefaults(e *h.Env) map[string]bool {
+	e.Rec.Pause()
+	defer e.Rec.Resume()
+	out := map[string]bool{}
+	rows, err := e.SQL.Query("SELECT name, dflt_value IS NOT NULL FROM pragma_table_info('" + table + "')")
+	if err != nil {
+		return out
+	}
+	defer rows.Close()
+	for rows.Next() {
+		var n string
+		var d bool
+		rows.Scan(&n, &d)
+		out[strings.ToLower(n)] = d
+	}
+	return out
+}
+
+// ghosts: columns that exist although the model excludes them from migration.
+func ghosts(e *h.Env, m *tg.Model) []string {
+	have := map[string]bool{}
+	for _, c := range tableColumns(e) {
+		have[strings.ToLower(c)] = true
+	}
+	var out []string
+	for s, sp := range m.Specs {
+		for _, g := range sp.GhostCols(s) {
+			if have[strings.ToLower(g)] {
+				out = append(out, g)
+			}
+		}
+	}
+	return out
+}
+
 type indexInfo struct {
 	unique bool
 	cols   []string
@@ -391,7 +435,8 @@ func allVals(sp *tg.Spec) []int {
 }
 
 type stats struct {
-	histories, completed, v2records, idempotentChecks int64
+	histories, completed, v2records, idempotentChecks   int64
+	alterHistories, alterWithDDL, ignoredFieldHistories int64
 }
 
 type checker struct {
@@ -462,6 +507,9 @@ func (ck *checker) check(w *worker, c Case) {
 		fail("migrate-v1", "columns missing after AutoMigrate", fmt.Sprint(miss))
 		return
 	}
+	if g := ghosts(e, v1); len(g) > 0 {
+		fail("migrate-v1", "a column excluded from migration was created", fmt.Sprint(g))
+	}
 
 	// 2. insert rows of v1
 	uniq0 := len(v1.Specs) == 1 && (hasUnique(c.Extra) || (c.Change == "tagfield" && hasUnique(c.NewTag)))
@@ -520,6 +568,9 @@ func (ck *checker) check(w *worker, c Case) {
 	if ddl := ddlOf(e); len(ddl) > 0 {
 		fail("migrate-v1-again", "AutoMigrate of an unchanged model issued schema-changing statements", strings.Join(ddl, "\n"))
 	}
+	if g := ghosts(e, v1); len(g) > 0 {
+		fail("migrate-v1-again", "a column excluded from migration was created", fmt.Sprint(g))
+	}
 	if after := dumpCols(e, v1cols); strings.Join(after, "\n") != strings.Join(before, "\n") {
 		fail("migrate-v1-again", "rows changed by AutoMigrate of an unchanged model", fmt.Sprintf("before:\n%s\nafter:\n%s", strings.Join(before, "\n"), strings.Join(after, "\n")))
 		return
@@ -534,6 +585,18 @@ func (ck *checker) check(w *worker, c Case) {
 	}
 	say("migrate(v2)")
 	ck.outcomes.Add(fmt.Sprint(len(ddlOf(e))) + "|" + c.Change + "|" + c.NewTag)
+	if c.Change == "alterfield" {
+		atomic.AddInt64(&ck.st.alterHistories, 1)
+		if len(ddlOf(e)) > 0 {
+			atomic.AddInt64(&ck.st.alterWithDDL, 1)
+		}
+	}
+	for _, sp := range v2.Specs {
+		if sp.NoColumn {
+			atomic.AddInt64(&ck.st.ignoredFieldHistories, 1)
+			break
+		}
+	}
 	if l := e.Leaks(); l != "" {
 		fail("migrate-v2", "AutoMigrate leaked a transaction", l)
 		w.discard()
@@ -543,6 +606,9 @@ func (ck *checker) check(w *worker, c Case) {
 	if miss := missing(tableColumns(e), v2cols); len(miss) > 0 {
 		fail("migrate-v2", "columns missing after AutoMigrate", fmt.Sprint(miss))
 		return
+	}
+	if g := ghosts(e, v2); len(g) > 0 {
+		fail("migrate-v2", "a column excluded from migration was created", fmt.Sprint(g))
 	}
 	if after := dumpCols(e, v1cols); strings.Join(after, "\n") != strings.Join(before, "\n") {
 		fail("migrate-v2", "existing rows not preserved on the common columns", fmt.Sprintf("before:\n%s\nafter:\n%s", strings.Join(before, "\n"), strings.Join(after, "\n")))
@@ -555,7 +621,26 @@ func (ck *checker) check(w *worker, c Case) {
 		case "tagfield":
 			col = v1.Specs[0].Cols(0)[0]
 		case "addfield":
-			col = v2.Specs[c.newSlot()].Cols(c.newSlot())[0]
+			if cs := v2.Specs[c.newSlot()].Cols(c.newSlot()); len(cs) > 0 {
+				col = cs[0]
+			}
+		case "alterfield":
+			// the columns named by the variant carry a default now, the field's
+			// other columns still carry none
+			want := map[string]bool{}
+			for _, dc := range v2.Specs[0].DefaultCols {
+				want[strings.ToLower(strings.ReplaceAll(dc, "%d", "0"))] = true
+			}
+			have := columnDefaults(e)
+			for _, fc := range v2.Specs[0].Cols(0) {
+				lc := strings.ToLower(fc)
+				if want[lc] && !have[lc] {
+					fail("present", "default added to an existing column is missing after AutoMigrate", "column "+fc)
+				}
+				if !want[lc] && have[lc] {
+					fail("present", "a column that has no default in the model received one", "column "+fc)
+				}
+			}
 		}
 		for _, p := range strings.Split(c.NewTag, ";") {
 			p = strings.TrimSpace(p)
@@ -603,6 +688,26 @@ func (ck *checker) check(w *worker, c Case) {
 			}
 		}
 	}
+	if c.Change == "alterfield" {
+		// the variant has its own catalogue; with a unique column keep away
+		// from the values the v1 rows hold
+		ns := v2.Specs[0]
+		taken := map[string]bool{}
+		for _, vi := range vals0 {
+			taken[tg.StoredNorm(v1.Specs[0], 0, v1.Specs[0].GoValue(0, v1.Specs[0].Values[vi].Go).Interface())] = true
+		}
+		rest0 = nil
+		cand := allVals(ns)
+		if uniq0 {
+			cand = distinctVals(ns, 0)
+		}
+		for _, vi := range cand {
+			if uniq0 && taken[tg.StoredNorm(ns, 0, ns.GoValue(0, ns.Values[vi].Go).Interface())] {
+				continue
+			}
+			rest0 = append(rest0, vi)
+		}
+	}
 	nrec := 1
 	var vals1 []int
 	if c.Change == "addfield" {
@@ -615,7 +720,10 @@ func (ck *checker) check(w *worker, c Case) {
 		nrec = len(vals1)
 	}
 	if len(v1.Specs) == 1 {
-		if uniq0 && len(rest0) < nrec {
+		if c.Change == "alterfield" {
+			nrec = len(rest0) // one v2 record per catalogue value of the variant
+		}
+		if (uniq0 || len(rest0) == 0) && len(rest0) < nrec {
 			nrec = len(rest0)
 		}
 	}
@@ -687,6 +795,9 @@ func (ck *checker) check(w *worker, c Case) {
 	if ddl := ddlOf(e); len(ddl) > 0 {
 		fail("migrate-v2-again", "AutoMigrate of an unchanged model issued schema-changing statements", strings.Join(ddl, "\n"))
 	}
+	if g := ghosts(e, v2); len(g) > 0 {
+		fail("migrate-v2-again", "a column excluded from migration was created", fmt.Sprint(g))
+	}
 	if after := dumpCols(e, v2cols); strings.Join(after, "\n") != strings.Join(full, "\n") {
 		fail("migrate-v2-again", "rows changed by AutoMigrate of an unchanged model", fmt.Sprintf("before:\n%s\nafter:\n%s", strings.Join(full, "\n"), strings.Join(after, "\n")))
 	}
@@ -724,7 +835,9 @@ const (
 	checkMarker = "check:marker <> 'zz'"
 )
 
-func multiCol(sp *tg.Spec) bool { return len(sp.ColTmpl) > 1 }
+// multiCol: kinds without exactly one column (embedded structs, fields
+// excluded from the table) take no per-column tags.
+func multiCol(sp *tg.Spec) bool { return len(sp.ColTmpl) != 1 }
 
 func nullable(sp *tg.Spec) bool {
 	for _, v := range sp.Values {
@@ -788,6 +901,9 @@ func tagChanges(sp *tg.Spec, extra string) []string {
 		return nil
 	}
 	var out []string
+	if textual(sp) && !strings.Contains(extra, "size:") {
+		out = append(out, "size:32") // SQLite text has no length: nothing to alter, nothing may change
+	}
 	for _, t := range []string{"index", "uniqueIndex", "unique", checkField} {
 		if strings.Contains(extra, "ndex") && strings.Contains(t, "ndex") {
 			continue // one index per column in this alphabet
@@ -856,6 +972,11 @@ func enumerate(thorough bool) []Case {
 				for _, t := range markerChanges {
 					c := base
 					c.Change, c.NewTag = "tagmarker", t
+					add(c)
+				}
+				for _, alt := range sp.Alters {
+					c := base
+					c.Change, c.NewSpec = "alterfield", alt.Name
 					add(c)
 				}
 				if thorough {
@@ -955,6 +1076,12 @@ func main() {
 		if st.idempotentChecks < 1000 {
 			run.HarnessError("vacuous: only %d idempotence checks", st.idempotentChecks)
 		}
+		if st.alterWithDDL < 50 {
+			run.HarnessError("vacuous: only %d histories in which migrate(v2) altered an existing column", st.alterWithDDL)
+		}
+		if st.ignoredFieldHistories < 50 {
+			run.HarnessError("vacuous: only %d histories with a field excluded from migration", st.ignoredFieldHistories)
+		}
 		if ck.outcomes.Len() < 4 {
 			run.HarnessError("vacuous: only %d distinct migration outcomes", ck.outcomes.Len())
 		}
@@ -966,14 +1093,17 @@ func main() {
 		run.Assume("excluded from the alphabet: " + x)
 	}
 	run.Finish(map[string]interface{}{
-		"evaluations":              st.histories,
-		"distinct_nontrivial":      ck.distinct.Len(),
-		"rule":                     "histories migrate(v1) -> insert rows -> migrate(v1) -> migrate(v2) -> read old rows, insert+read v2 records (one per catalogue value of the added kind) -> migrate(v2); v1 = key configuration (4) x field kind x tag variant; quick: sweep A = every v1 x {tags added to the field, tags added to Marker, two reference added fields}, sweep B = 6 reference v1 x every added field kind x tag variant; thorough: every v1 x every added kind x tag variant. distinct_nontrivial = distinct histories that ran to the end with every oracle step evaluated and no violation",
-		"samples":                  ck.samples.List(),
-		"exhaustive":               atomic.LoadInt32(&timedOut) == 0,
-		"histories_completed":      st.completed,
-		"idempotence_checks":       st.idempotentChecks,
-		"v2_records_round_tripped": st.v2records,
+		"evaluations":                           st.histories,
+		"distinct_nontrivial":                   ck.distinct.Len(),
+		"rule":                                  "histories migrate(v1) -> insert rows -> migrate(v1) -> migrate(v2) -> read old rows, insert+read v2 records (one per catalogue value of the added kind) -> migrate(v2); v1 = key configuration (4) x field kind x tag variant; quick: sweep A = every v1 x {tags added to the field, tags added to Marker, every v2 variant of the field that alters an existing column (default added; for the twice-embedded struct on the first, the second or both twins), two reference added fields}, sweep B = 6 reference v1 x every added field kind x tag variant; thorough: every v1 x every added kind x tag variant. distinct_nontrivial = distinct histories that ran to the end with every oracle step evaluated and no violation",
+		"samples":                               ck.samples.List(),
+		"exhaustive":                            atomic.LoadInt32(&timedOut) == 0,
+		"histories_altering_an_existing_column": st.alterHistories,
+		"of_which_migrate_v2_issued_ddl":        st.alterWithDDL,
+		"histories_with_field_excluded_from_migration":         st.ignoredFieldHistories,
+		"histories_completed":                                  st.completed,
+		"idempotence_checks":                                   st.idempotentChecks,
+		"v2_records_round_tripped":                             st.v2records,
 		"distinct_migration_outcomes (ddl count, change, tag)": ck.outcomes.Len(),
 		"kind_class_pairs_verified_on_v2_records":              ck.classes.Len(),
 		"failing_checks_by_tags_and_kind":                      ck.hist,
